@@ -9,7 +9,8 @@ import ast
 from ..frontend import AnalysisError, normalise, loc, mangle
 from ..typestate import Typestate, ExplosionError
 
-PROP = 'C07'
+PROP = "C07"
+LEVEL = "proof"
 # attributes C07 lists ("data, NFFT, sampling, window, lag, detrend, scale_by_freq, sides, model orders")
 ATTRS = ['data', 'NFFT', 'sampling', 'window', 'lag', 'detrend', 'scale_by_freq', 'ar_order', 'ma_order']
 PSD_FIELD = '_Spectrum__psd'
